@@ -4,7 +4,7 @@
    adjudicated per run by the C01 admission rule (Properties_C01), and "a later solve can only keep or improve" is the
    solution-set theorem C04_best_never_worse (Properties_C04). *)
 From Coq Require Import List ZArith Bool Arith.
-From OmplV Require Import PisModel PisProofs LedgerModel LedgerProofs.
+From OmplV Require Import PisModel PisProofs LedgerModel LedgerProofs RrtModel RrtProofs.
 Import ListNotations.
 
 (* a fresh query hands out every valid in-bounds start exactly once, in order, then reports that none is left *)
@@ -39,6 +39,23 @@ Theorem C03_goal_samples_bounded : forall w r w', next_goal w = (r, w') -> w_sam
 Proof. exact next_goal_counts. Qed.
 
 (* the report of each interrupted / resumed solve is adjudicated by the same admission rule as C01 *)
+(* resumed solves of the RRT family (RrtModel.tree_calls: any number of solve() calls on the same planner without clear(), each
+   with its own stream of iteration inputs, the tree carried over): the tree keeps its invariant — roots are start states, every
+   other node hangs off an earlier node by a motion the extension step vouches for — it only grows, and every call's report is
+   real with respect to the tree that call left behind: a chain of vouched motions from a start state, exact => the goal accepts
+   the last state, approximate => no state added during that call beats it, no report => that call added nothing.
+   Instantiated by geometric::RRT (motions checkMotion accepted) and control::RRT (motions that replay) *)
+Theorem C03_rrt_family_resumed_solves_report_real_paths :
+  forall (St D I E : Type) dist (dlt : D -> D -> bool) (target : I -> St) extend sat gdist (dflt : St) (EdgeOk : St -> E -> St -> Prop),
+  (forall a b c, dlt a b = true -> dlt b c = true -> dlt a c = true) -> (forall a, dlt a a = false) ->
+  (forall n i s e, extend n i = Some (s, e) -> EdgeOk n e s) ->
+  forall starts calls tree0 new_starts, TInv St E EdgeOk starts tree0 -> (forall x, In x new_starts -> In x starts) ->
+  tree0 ++ map (fun x => (x, None)) new_starts <> [] ->
+  let res := tree_calls St D I E dist dlt target extend sat gdist dflt tree0 new_starts calls in
+  TInv St E EdgeOk starts (fst res) /\
+  Forall (fun rep => exists base tree, report_ok St D E sat gdist dlt dflt EdgeOk starts base tree rep /\ TInv St E EdgeOk starts tree /\
+                                       exists ext, fst res = tree ++ ext) (snd res).
+Proof. exact tree_calls_spec. Qed.
 Theorem C03_admission_sound : forall r, admissible r = true ->
   (is_solution_status (r_status r) = true -> C01_solution r) /\
   (is_solution_status (r_status r) = false -> r_paths_after r = r_paths_before r).
@@ -51,6 +68,7 @@ Print Assumptions C03_new_problem_definition_forgets.
 Print Assumptions C03_same_problem_definition_keeps_progress.
 Print Assumptions C03_after_clear_only_current_starts.
 Print Assumptions C03_goal_samples_bounded.
+Print Assumptions C03_rrt_family_resumed_solves_report_real_paths.
 Print Assumptions C03_admission_sound.
 
 Example C03_nonvacuous :
